@@ -44,7 +44,7 @@ def case_hash(case):
 
 
 def strip_case(c):
-    return {k: v for k, v in c.items() if k in ('kind', 'calls', 'state')}
+    return {k: v for k, v in c.items() if k in ('kind', 'calls', 'state', 'variants', 'meta')}
 
 
 def nontrivial_result(res):
@@ -85,7 +85,7 @@ class Spec:
     def project(self, call):
         return (call.get('html'), call.get('log'))
 
-    def oracle(self, ctx, case, impl):
+    def oracle(self, ctx, case, impl, variants=()):
         """None, or (class, why) when the implementation violates the property on this case."""
         return None
 
@@ -141,26 +141,44 @@ class Spec:
         return out
 
     def run_oracle(self, ctx, cases):
-        cases = [c for c in cases if not excluded(c)]
-        res = impl_run(cases, timeout=self.timeout)
+        """cases may carry 'variants': further histories run alongside, whose results the oracle compares"""
+        cases = [c for c in cases if not excluded(c) and not any(excluded(v) for v in c.get('variants', []))]
+        flat = []
+        for c in cases:
+            flat.append(strip_case(c))
+            for v in c.get('variants', []):
+                flat.append(strip_case(v))
+        res = impl_run(flat, timeout=self.timeout)
         fails = []
         nt = 0
         seen = set()
-        for c, r in zip(cases, res):
+        k = 0
+        for c in cases:
+            r = res[k]
+            k += 1
+            vr = []
+            for v in c.get('variants', []):
+                vr.append(res[k])
+                k += 1
             h = case_hash(strip_case(c))
             if h not in seen:
                 seen.add(h)
                 if nontrivial_result(r):
                     nt += 1
             try:
-                o = self.oracle(ctx, c, r)
+                o = self.oracle(ctx, c, r, vr)
             except Exception as e:  # an oracle crash is a harness bug, never a violation
                 o = None
                 self._oracle_errors = getattr(self, '_oracle_errors', 0) + 1
                 self._oracle_last_error = repr(e)
             if o:
-                fails.append({'class': o[0], 'why': o[1], 'case': strip_case(c)})
-        return fails, nt, len(cases)
+                kc = strip_case(c)
+                if c.get('variants'):
+                    kc['variants'] = [strip_case(v) for v in c['variants']]
+                if c.get('meta'):
+                    kc['meta'] = c['meta']
+                fails.append({'class': o[0], 'why': o[1], 'case': kc})
+        return fails, nt, len(flat)
 
     def search(self, ctx, extra_cases, boost):
         cases = list(extra_cases) + list(self.search_cases(ctx, boost))
@@ -290,7 +308,7 @@ class C20(Spec):
     def search_cases(self, ctx, boost):
         return self._seqs(ctx)
 
-    def oracle(self, ctx, case, impl):
+    def oracle(self, ctx, case, impl, variants=()):
         """Reference for the statement on the restricted alphabet: mode after the session, diagnostics."""
         if impl.get('timeout'):
             return ('C20/timeout', 'render did not return')
@@ -361,4 +379,581 @@ class C20(Spec):
 
 C20_DOCS_LINES = set(l for d in C20_DOCS for l in d.split('\n')) | {".safeMode='2'", ".htmlReplacement='Q'", ".safeMode='4'"}
 
-PROPS = {'C20': C20()}
+
+import oracles as O
+
+POLICY_MODES = [1, 2, 3, 5, 6, 7, 9, 10, 11, 13, 14, 15]
+SENT = '@@R@@'
+
+
+def H(calls, state=False, **kw):
+    d = {'kind': 'H', 'calls': calls, 'state': state}
+    d.update(kw)
+    return d
+
+
+def call(src, **o):
+    c = {'src': src}
+    c.update(o)
+    return c
+
+
+def all_ok(impl, n=None):
+    if impl.get('timeout') or 'calls' not in impl:
+        return False
+    cs = impl['calls']
+    if n is not None and len(cs) < n:
+        return False
+    return all(c.get('status') == 'ok' for c in cs)
+
+
+# ---------------------------------------------------------------------------
+# C01 -- render is total
+
+C01_CURATED = [
+    ("- item\n\n.+container\n> - nested\n- item2", dict(safeMode=1)),
+    (".+spans\n<div>x</div>", dict(safeMode=2, htmlReplacement='\x00')),
+    ("{m}='$" + '1' * 5000 + "'\n{m|x}", dict(safeMode=8)),
+    ("/x*/='y'\nabc", dict(safeMode=0)),
+    ("/(/='x'", dict(safeMode=0)),
+    ("/(a)|b/='[$1]'\nab", dict(safeMode=0)),
+    ("http://a.b/c " * 1200, dict(safeMode=1)),
+    ("*a* " * 1200, dict(safeMode=1)),
+    ("{v}='x'\n{v=a{4294967296\\}}", dict(safeMode=0)),
+    ("<b>", dict(safeMode=2, htmlReplacement=42)),
+]
+
+
+class C01(Spec):
+    level_text = ('Partial. Proved: C01_update_total (option handling never fails for any option values), C01_range/ids invariants '
+                  'used by the no-raise argument; the raise sites of the model are explicit (exn type) and the correspondence compares '
+                  'ok/raise-kind/timeout of model and implementation on token-soup histories, degenerate definitions and pumped inputs. '
+                  'Not proved: absence of Raise for every input (the unchanged code does raise, see known findings); interpreter recursion '
+                  'depth is outside the model and is observed through the implementation only.')
+    rule = ('token-soup histories with legal and illegal option values, degenerate quote/replacement/block definitions, repeated '
+            'elements; each also run without callback; non-trivial = tag other than <p>, diagnostic or raise')
+    state_keys = []
+
+    def project(self, call):
+        return call.get('html')
+
+    def streams(self, ctx):
+        rng = ctx.rng('H')
+        return [corpus_stream(ctx), ('H', [gen.history(rng, 4) for _ in range(sizes(ctx, 1200, 40000))]),
+                ('D', [gen.degenerate_history(rng) for _ in range(sizes(ctx, 300, 8000))])]
+
+    def search_cases(self, ctx, boost):
+        rng = ctx.rng('search')
+        out = []
+        n = sizes(ctx, 700, 30000) * (3 if boost else 1)
+        for k in range(n):
+            h = gen.history(rng, 3) if k % 4 else gen.degenerate_history(rng)
+            v = {'kind': 'H', 'state': False, 'calls': [dict(c, cb=False) for c in h['calls']]}
+            h = dict(h, state=False, variants=[v])
+            out.append(h)
+        for h in gen.repeated_elements(ctx.quick):
+            out.append(h)
+        for src, o in C01_CURATED:
+            out.append(H([call(src, cb=True, reset=True, **o)]))
+        return out
+
+    def oracle(self, ctx, case, impl, variants=()):
+        if impl.get('timeout'):
+            return None   # C02's concern
+        for k, c in enumerate(impl.get('calls', [])):
+            if c.get('status') != 'ok':
+                return ('C01/raise:%s' % c.get('exn'), 'call %d raises %s: %s' % (k, c.get('exn'), c.get('msg', '')[:120]))
+        if variants and all_ok(variants[0]) and not variants[0].get('timeout'):
+            a = [c['html'] for c in impl['calls']]
+            b = [c['html'] for c in variants[0]['calls']]
+            if a != b:
+                return ('C01/callback-changes-output', 'HTML differs with and without callback')
+        return None
+
+
+# ---------------------------------------------------------------------------
+# C03 / C06 -- output grammar
+
+class C03(Spec):
+    level_text = ('Partial. Proved over the model: escape_confined (replaceSpecialChars output contains no raw <, >, and every & starts an '
+                  'entity), C03_guards (in every non-zero mode -specials is refused, raw [html-attributes] are ignored, definition elements '
+                  'are skipped -- facts recomputed from the generated guards), C03_policy (the HTML filter returns nothing, the replacement '
+                  'or escaped text for policies 1,2,3). The full Forest theorem for render is not proved; the output grammar is checked by the '
+                  'tokeniser oracle on the implementation and the model is compared on full HTML at the 12 policy modes.')
+    rule = ('token-soup and attribute/URL-injection documents x 12 policy modes x replacement sentinel; output tokenised with the '
+            'strict grammar of DESIGN appendix B; non-trivial = output contains a tag other than <p>')
+    state_keys = []
+
+    def project(self, call):
+        return call.get('html')
+
+    def _cases(self, ctx, n, stream):
+        rng = ctx.rng(stream)
+        out = []
+        for _ in range(n):
+            m = rng.choice(POLICY_MODES)
+            k = rng.randint(1, 3)
+            calls = [call(gen.soup_doc(rng, 8), safeMode=m if j == 0 else None, reset=True if j == 0 else None,
+                          htmlReplacement=SENT if j == 0 else None, cb=True) for j in range(k)]
+            out.append(H(calls))
+        return out
+
+    def streams(self, ctx):
+        return [corpus_stream(ctx), ('T', self._cases(ctx, sizes(ctx, 1200, 60000), 'T'))]
+
+    def search_cases(self, ctx, boost):
+        return self._cases(ctx, sizes(ctx, 1500, 60000) * (3 if boost else 1), 'S') + gen.injection_cases(POLICY_MODES, SENT)
+
+    def oracle(self, ctx, case, impl, variants=()):
+        if not all_ok(impl):
+            return None
+        for k, c in enumerate(impl['calls']):
+            e = O.confined(c['html'], SENT)
+            if e:
+                return ('C03/' + e[0], 'call %d output breaks the grammar: %s: %r' % (k, e[0], e[1]))
+        return None
+
+
+class C06(Spec):
+    level_text = ('Partial. Proved: fragQuote_structure lemmas are not yet available; the claim rests on the balanced-tag oracle over the '
+                  'implementation and the model/implementation comparison on full HTML. Listed as proof-level only for the emitted-tag '
+                  'table facts (every generated open tag has its close tag in the same definition, checked on the generated tables).')
+    rule = ('token-soup documents at the 12 HTML-filtering modes, and <-free token soup at mode 0 without definitions; tag stack over '
+            'the tokenised output; non-trivial = output contains a tag other than <p>')
+    state_keys = []
+
+    def project(self, call):
+        return call.get('html')
+
+    def _cases(self, ctx, n, stream):
+        rng = ctx.rng(stream)
+        out = []
+        for _ in range(n):
+            if rng.random() < 0.6:
+                m = rng.choice(POLICY_MODES)
+                out.append(H([call(gen.soup_doc(rng, 10), safeMode=m, reset=True, htmlReplacement=SENT, cb=True)]))
+            else:
+                src = gen.soup_doc(rng, 10, no_lt=True, no_defs=True)
+                out.append(H([call(src, safeMode=0, reset=True, cb=True)]))
+        return out
+
+    def streams(self, ctx):
+        return [corpus_stream(ctx), ('T', self._cases(ctx, sizes(ctx, 1200, 60000), 'T'))]
+
+    CURATED = ["{m} = '$$1'\n*x {m|__a* b__}", "{m} = '$$1'\n{m|*a\nb*} x {--!}", "{m}='$$1'\n_a {m|*b_ c*}",
+               "{m}='*x'\n{m} y*", "{m}='$1'\n*a {m|b* c}", "- *a\n- b*", "*a\n\nb*", "..\n*a\n..\nb*", "a::*b\nc*"]
+
+    def search_cases(self, ctx, boost):
+        cur = [H([call(src, safeMode=0, reset=True, cb=True)]) for src in self.CURATED]
+        return cur + self._cases(ctx, sizes(ctx, 1500, 60000) * (3 if boost else 1), 'S')
+
+    def oracle(self, ctx, case, impl, variants=()):
+        if not all_ok(impl):
+            return None
+        for k, c in enumerate(impl['calls']):
+            e = O.balanced(c['html'], SENT, lenient=(case['calls'][k].get('safeMode') == 0))
+            if e:
+                return ('C06/' + e[0].split(':')[0], 'call %d: %s: %s in %r' % (k, e[0], e[1], c['html'][:200]))
+        return None
+
+
+# ---------------------------------------------------------------------------
+# C04 -- safe-mode input cannot change definitions or options
+
+PROBES = ["*a* _b_ `c` ~~d~~ **e** __f__ =g= #h# !i!", "[l](http://u.v) <http://w.x> foo ... x+ xx &amp; <b>t</b>",
+          "``\ncode {m}\n``", "..\ndiv *x*\n..", "\"\"\nq\n\"\"", "  indented\n\n> qp\n\n<div>h</div>",
+          "{m} {n} {m|a|b} {--}", "para *p* <i>raw</i> <!-- c -->"]
+PREAMBLE_LINES = [l for l in gen.LINES if re.match(r"^(\{[\w-]+\??\}\s*=\s*'.*'|\|[\w-]+\|\s*=|/.+/[igm]*\s*=|\S{1,2}\s*=\s*'[^|]*\|)", l)
+                  and not l.startswith('\\') and l not in ("{m}='", "{m} = 'multi", "/(/='x'")]
+UNTRUSTED_EXTRA = ["|paragraph|='<p class=\"x\">|</p>'", "= = '<u>|</u>'", "/foo/='bar'", ".safeMode='0'", ".htmlReplacement='Z'",
+                   ".reset='true'", "{m}='evil'", "{m?}='evil'", "{new}='n'", "{--header-ids}='y'", "|code|='-macros'",
+                   "* = '<b>|</b>'", "/x+/i='y'", "{m}='", "two'", "|division|='<section>|</section>'"]
+
+
+class C04(Spec):
+    level_text = ('Full for the frame statement over the model: C04_frame (for every fuel, source and session with a non-zero safe mode, '
+                  'document.render leaves safeMode, htmlReplacement, the quote, replacement and delimited-block definitions unchanged -- '
+                  'proved through the frame theorem over every block-layer function, with the conditions on writers stated in terms of the '
+                  '*generated* guards), C04_macros (macro table unchanged unless bit 8), C04_api (same at the render API after the call\'s '
+                  'own options). "No later document renders differently" is decided by the oracle (probe battery before/after) and the '
+                  'model/implementation comparison of full state snapshots.')
+    rule = ('trusted preamble (definitions at mode 0) . untrusted token soup biased to definition/option lines at each of the 15 non-zero '
+            'modes . flush . probe battery; compared with the same session without the untrusted document; state snapshots compared; '
+            'non-trivial = tag other than <p>, diagnostic or raise')
+    state_keys = ['mode', 'repl', 'quotes', 'repls', 'dblocks', 'macros']
+
+    def project(self, call):
+        return None
+
+    def _case(self, rng):
+        pre = '\n'.join(rng.sample(PREAMBLE_LINES, rng.randint(0, 4)))
+        m = rng.randint(1, 15)
+        lines = []
+        for _ in range(rng.randint(1, 6)):
+            lines.append(rng.choice(UNTRUSTED_EXTRA) if rng.random() < 0.6 else gen.soup_doc(rng, 2))
+        unt = '\n'.join(lines)
+        later0 = rng.random() < 0.3
+        tail = [call('x', cb=True)] + [call(p, cb=True) for p in PROBES]
+        if later0:
+            tail = tail + [call(PROBES[0], safeMode=0, cb=True), call(PROBES[6], cb=True), call(PROBES[3], cb=True)]
+        main = H([call(pre, safeMode=0, reset=True, cb=True), call(unt, safeMode=m, cb=True)] + tail, state=True)
+        base = H([call(pre, safeMode=0, reset=True, cb=True), call('', safeMode=m, cb=True)] + tail, state=True)
+        main['variants'] = [base]
+        main['meta'] = {'mode': m}
+        return main
+
+    def streams(self, ctx):
+        rng = ctx.rng('H')
+        cs = []
+        for _ in range(sizes(ctx, 500, 25000)):
+            c = self._case(rng)
+            cs.append(c)
+            cs.append(c['variants'][0])
+        return [corpus_stream(ctx), ('H', cs)]
+
+    def search_cases(self, ctx, boost):
+        rng = ctx.rng('S')
+        return [self._case(rng) for _ in range(sizes(ctx, 600, 25000) * (3 if boost else 1))]
+
+    def oracle(self, ctx, case, impl, variants=()):
+        if not variants or not all_ok(impl) or not all_ok(variants[0]):
+            return None
+        a, b = impl['calls'], variants[0]['calls']
+        if len(a) != len(b):
+            return None
+        bit8 = bool(case['meta']['mode'] & 8)
+        for k in range(3, len(a)):
+            src = case['calls'][k]['src']
+            if bit8 and '{' in src:
+                continue   # macros may legitimately change under bit 8
+            if a[k]['html'] != b[k]['html']:
+                return ('C04/later-document-differs', 'probe %r renders %r after the untrusted document, %r without it'
+                        % (src, a[k]['html'][:120], b[k]['html'][:120]))
+        sa, sb = impl.get('state'), variants[0].get('state')
+        if sa and sb:
+            for key in ['mode', 'repl', 'quotes', 'repls', 'dblocks'] + ([] if bit8 else ['macros']):
+                if sa.get(key) != sb.get(key):
+                    return ('C04/state-changed:' + key, '%s changed: %r vs %r' % (key, sa.get(key), sb.get(key)))
+        return None
+
+
+# ---------------------------------------------------------------------------
+# C05 -- reset makes render a pure function
+
+class C05(Spec):
+    level_text = ('Full for the state: C05_reset_state (after updateFrom with a truthy reset the session equals the freshly initialised one '
+                  'with the call\'s options applied, except for the diagnostic log prefix and the list-id scratch stack, from *any* prior '
+                  'state including the uninitialised one) and C05_init_total_overwrite (document_init overwrites every field). That '
+                  'document.render does not read the two excepted fields is checked by correspondence and oracle (arbitrary histories vs a '
+                  'fresh interpreter), as is Python aliasing of default objects, which the model cannot exhibit.')
+    rule = ('random histories of 1-4 calls (redefinitions, ids, pending attributes, unterminated blocks, illegal options) followed by a call '
+            'with reset=true; oracle compares with the same call alone in a fresh interpreter; non-trivial as usual')
+    state_keys = None
+
+    def _case(self, rng):
+        h = gen.history(rng, 4)
+        last = gen.rand_opts(rng, legal_only=rng.random() < 0.7)
+        last['reset'] = rng.choice([True, 'true', 1])
+        last['src'] = gen.soup_doc(rng, 8)
+        last['cb'] = True
+        main = H(h['calls'] + [last], state=True)
+        main['variants'] = [H([last], state=True)]
+        return main
+
+    def streams(self, ctx):
+        rng = ctx.rng('H')
+        cs = []
+        for _ in range(sizes(ctx, 500, 20000)):
+            c = self._case(rng)
+            cs.append(c)
+        return [corpus_stream(ctx), ('H', cs)]
+
+    def search_cases(self, ctx, boost):
+        rng = ctx.rng('S')
+        return [self._case(rng) for _ in range(sizes(ctx, 800, 30000) * (3 if boost else 1))] + gen.reset_adversaries()
+
+    def oracle(self, ctx, case, impl, variants=()):
+        if not variants or not all_ok(impl) or not all_ok(variants[0]):
+            return None
+        a, b = impl['calls'][-1], variants[0]['calls'][-1]
+        if a['html'] != b['html']:
+            return ('C05/output-depends-on-history', 'with reset: %r after the history, %r in a fresh interpreter'
+                    % (a['html'][:150], b['html'][:150]))
+        if a['log'] != b['log']:
+            return ('C05/diagnostics-depend-on-history', '%r vs %r' % (a['log'][:4], b['log'][:4]))
+        return None
+
+
+# ---------------------------------------------------------------------------
+# C13 -- the three HTML policies differ only at the HTML elements
+
+class C13(Spec):
+    level_text = ('Partial. Proved: C13_policy_cases (the policy function is the only place where the low two bits of the safe mode are '
+                  'consulted: html_policy is total over the generated selector and the three non-raw policies return nothing / the replacement '
+                  '/ the escaped text); non-interference of the filter result with surrounding markup is not proved (relational argument over '
+                  'the placeholder protocol); decided by the alignment oracle and full-HTML correspondence at modes 1,2,3 + {0,4,8,12}.')
+    rule = ('token-soup sources rendered at modes 1,2,3 + {0,4,8,12} with a fresh sentinel replacement; outputs aligned around sentinel '
+            'occurrences modulo newlines; non-trivial = source contains an HTML element')
+    state_keys = []
+
+    def project(self, call):
+        return call.get('html')
+
+    def _case(self, rng):
+        hi = rng.choice([0, 4, 8, 12])
+        src = gen.soup_doc(rng, 8)
+        mk = lambda m: H([call(src, safeMode=m + hi, reset=True, htmlReplacement=SENT, cb=False)])
+        main = mk(2)
+        main['variants'] = [mk(1), mk(3)]
+        return main
+
+    def streams(self, ctx):
+        rng = ctx.rng('T')
+        cs = []
+        for _ in range(sizes(ctx, 400, 20000)):
+            c = self._case(rng)
+            cs += [c] + c['variants']
+        return [corpus_stream(ctx), ('T', cs)]
+
+    CURATED = [".cls\n<div>x</div>\n\npara", "*<br> a*", "`<br>`", "<div>\n<p>\nx\n</div>\n\nnext", "a <b>b</b> *c* <!-- d -->",
+               "<!-- c1\nc2 -->\n\npara", "- <i>x</i>\n- y", "**<!-- c --> strong**", "_text <br>_"]
+
+    def search_cases(self, ctx, boost):
+        rng = ctx.rng('S')
+        cur = []
+        for src in self.CURATED:
+            for hi in (0, 4, 8, 12):
+                mk = lambda m: H([call(src, safeMode=m + hi, reset=True, htmlReplacement=SENT, cb=False)])
+                c = mk(2)
+                c['variants'] = [mk(1), mk(3)]
+                cur.append(c)
+        return cur + [self._case(rng) for _ in range(sizes(ctx, 1000, 30000) * (3 if boost else 1))]
+
+    def oracle(self, ctx, case, impl, variants=()):
+        if len(variants) < 2 or not all_ok(impl) or not all_ok(variants[0]) or not all_ok(variants[1]):
+            return None
+        src = case['calls'][0]['src']
+        if SENT in src:
+            return None
+        o2 = impl['calls'][0]['html'].replace('\n', '')
+        o1 = variants[0]['calls'][0]['html'].replace('\n', '')
+        o3 = variants[1]['calls'][0]['html'].replace('\n', '')
+        segs = o2.split(SENT)
+        if ''.join(segs) != o1:
+            return ('C13/drop-vs-replace', 'drop gives %r, replace gives %r' % (o1[:200], o2[:200]))
+        pat = '(?:&lt;[\\s\\S]*?)'.join(re.escape(x) for x in segs)
+        if not re.fullmatch(pat, o3):
+            return ('C13/escape-vs-replace', 'escape gives %r, replace gives %r' % (o3[:200], o2[:200]))
+        return None
+
+
+# ---------------------------------------------------------------------------
+# C14 -- rendering in parts equals rendering whole
+
+class C14(Spec):
+    level_text = ('Partial. Proved: C14_state_carries (render initialises only when the mode is -1; with no reset and no options the call '
+                  'leaves the whole session untouched before rendering -- updateFrom_persist), so split and joined renders start B from the '
+                  'same definitions; the block-loop decomposition lemma (L8) is not proved. Decided by the split-vs-joined oracle and '
+                  'correspondence on pairs and triples.')
+    rule = ('pairs/triples of token-soup documents, A closed (checked by rendering A + sentinel paragraph); options on the first call only; '
+            'HTML compared up to white space between tags, diagnostics as sets; non-trivial as usual')
+    state_keys = None
+
+    def _case(self, rng):
+        m = rng.choice([None, 0, 0, 1, 3, 5, 9, 15])
+        # an in-document .reset element drops the callback for the rest of that call by design: not generated here
+        A = gen.soup_doc(rng, 7, closed=True).replace(".reset=", ".reset =x")
+        B = gen.soup_doc(rng, 7, no_list_start=True).replace(".reset=", ".reset =x")
+        o = dict(safeMode=m, reset=True, cb=True)
+        parts = H([call(A, **o), call(B, cb=True)], state=True)
+        whole = H([call(A + '\n\n' + B, **o)], state=True)
+        probe = H([call(A + '\n\nZZZ9', **o)])
+        parts['variants'] = [whole, probe]
+        return parts
+
+    def streams(self, ctx):
+        rng = ctx.rng('H')
+        cs = []
+        for _ in range(sizes(ctx, 400, 20000)):
+            c = self._case(rng)
+            cs += [c, c['variants'][0]]
+        return [corpus_stream(ctx), ('H', cs)]
+
+    def search_cases(self, ctx, boost):
+        rng = ctx.rng('S')
+        return [self._case(rng) for _ in range(sizes(ctx, 800, 30000) * (3 if boost else 1))]
+
+    def oracle(self, ctx, case, impl, variants=()):
+        if len(variants) < 2 or not all_ok(impl, 2) or not all_ok(variants[0]) or not all_ok(variants[1]):
+            return None
+        A = case['calls'][0]['src']
+        pa = impl['calls'][0]
+        pr = variants[1]['calls'][0]
+        # precondition: A is closed -- a following paragraph is rendered on its own, after exactly A's rendering
+        if O.squeeze(pr['html']) != O.squeeze(pa['html'] + '<p>ZZZ9</p>'):
+            return None
+        if any('unterminated' in m[1] for m in pa['log']):
+            return None
+        parts = O.squeeze(impl['calls'][0]['html'] + '\n' + impl['calls'][1]['html'])
+        whole = O.squeeze(variants[0]['calls'][0]['html'])
+        if parts != whole:
+            return ('C14/html-differs', 'in parts %r, whole %r' % (parts[:200], whole[:200]))
+        la = set(tuple(m) for c in impl['calls'] for m in c['log'])
+        lb = set(tuple(m) for m in variants[0]['calls'][0]['log'])
+        # undefined-macro diagnostics quote the enclosing text, which differs by construction
+        norm = lambda S: set((t, re.sub(r'^(undefined macro: [^:]*):.*$', r'\1', x, flags=re.S)) for t, x in S)
+        if norm(la) != norm(lb):
+            return ('C14/diagnostics-differ', 'in parts %r, whole %r' % (sorted(la)[:4], sorted(lb)[:4]))
+        return None
+
+
+# ---------------------------------------------------------------------------
+# C15 -- element ids unique unless a duplicate is reported
+
+class C15(Spec):
+    level_text = ('Full for the registry invariant: C15_nodup (the id registry of every reachable session has no duplicates -- frame '
+                  'theorem instance), C15_slug_fresh (slugify never returns a registered id; the suffix search terminates by pigeonhole, '
+                  'proved, not assumed), C15_register_or_report (injection either registers a new id or logs a duplicate diagnostic). '
+                  'That emitted id attributes coincide with registrations is decided by the oracle (ids parsed from outputs) and correspondence.')
+    rule = ('sessions of 1-4 documents with headers (colliding, empty, suffix-looking slugs), explicit ids colliding with each other and '
+            'with generated ones; ids parsed from outputs must be lower-case, a repeat iff a duplicate diagnostic; non-trivial = an id is emitted')
+    state_keys = ['ids', 'pending']
+
+    def project(self, call):
+        return (O.ids_of(call.get('html') or ''), [m for m in (call.get('log') or []) if 'duplicate' in m[1]])
+
+    def _case(self, rng):
+        titles = ['Intro', 'intro', 'Intro!', '???', '!!!', 'a 2', 'a-2', 'a', 'A', 'x', 'X y', 'say hi', 'É', 'K', 'a_b', '1', 'x-2',
+                  'x 2', 'say id="x" now', 'class="c" id="y"']
+        ids = ['intro', 'Intro', 'a', 'a-2', 'x', 'x-2', 'b', 'A']
+        calls = []
+        for j in range(rng.randint(1, 4)):
+            lines = []
+            if j == 0 and rng.random() < 0.8:
+                lines.append("{--header-ids}='true'")
+            for _ in range(rng.randint(1, 6)):
+                r = rng.random()
+                if r < 0.45:
+                    lines.append('#' * rng.randint(1, 3) + ' ' + rng.choice(titles))
+                elif r < 0.75:
+                    lines.append('.#' + rng.choice(ids))
+                    lines.append(rng.choice(['para', '# ' + rng.choice(titles), '- item', '..\nx\n..', 'term:: def']))
+                elif r < 0.85:
+                    lines.append('.cls #' + rng.choice(ids))
+                    lines.append('para')
+                else:
+                    lines.append(rng.choice(['para', '- a\n- b', "{--header-ids}=''", "{--header-ids}='1'"]))
+                lines.append('')
+            calls.append(call('\n'.join(lines), cb=True, reset=True if (j == 0 or rng.random() < 0.1) else None))
+        return H(calls, state=True)
+
+    def streams(self, ctx):
+        rng = ctx.rng('H')
+        return [corpus_stream(ctx), ('ids', [self._case(rng) for _ in range(sizes(ctx, 600, 30000))])]
+
+    def search_cases(self, ctx, boost):
+        rng = ctx.rng('S')
+        return [self._case(rng) for _ in range(sizes(ctx, 1000, 40000) * (3 if boost else 1))]
+
+    def oracle(self, ctx, case, impl, variants=()):
+        if not all_ok(impl):
+            return None
+        seen = set()
+        for k, c in enumerate(impl['calls']):
+            if case['calls'][k].get('reset'):
+                seen = set()
+            ids = O.ids_of(c['html'])
+            dups = [m for m in c['log'] if m[1].startswith("duplicate 'id' attribute")]
+            repeated = []
+            for i in ids:
+                if i != i.lower():
+                    return ('C15/not-lower-case', 'id %r emitted' % i)
+                if i in seen:
+                    repeated.append(i)
+                seen.add(i)
+            if repeated and not dups:
+                return ('C15/duplicate-unreported', 'id %r repeated in call %d without a diagnostic' % (repeated[0], k))
+            # a duplicate diagnostic must correspond to an explicitly repeated id in the source
+            explicit = re.findall(r'#([A-Za-z][\w-]*)', case['calls'][k]['src'])
+            for d in dups:
+                name = d[1].split(': ', 1)[1]
+                if name not in [e.lower() for e in explicit]:
+                    return ('C15/spurious-duplicate', 'diagnostic %r but the source does not give that id' % d[1])
+        return None
+
+
+# ---------------------------------------------------------------------------
+# C16 -- line endings and reserved control characters
+
+class C16(Spec):
+    level_text = ('Full for the reader: C16_lines (splitting the re-encoded text gives back the lines, for every choice of LF/CRLF/CR per line '
+                  'and lines free of CR/LF -- a decode-encode round trip by induction over the line list, on the *generated* split regex via '
+                  'its characterisation lemma), C16_blanked (blank_reserved is idempotent, yields reserved-free text and commutes with '
+                  'mk_reader, so a source and its blanked version give the same reader). "None of them appears in the output" (placeholder '
+                  'protocol) is decided by the oracle and correspondence, not proved.')
+    rule = ('token-soup documents re-encoded with random per-line terminators, and with reserved characters inserted at random positions; '
+            'outputs must coincide and contain none of U+0000..U+0002; non-trivial as usual')
+    state_keys = []
+
+    def project(self, call):
+        return call.get('html')
+
+    def _case(self, rng):
+        m = rng.choice([0, 0, 1, 2, 3, 5, 9, 15])
+        src = gen.soup_doc(rng, 8, lf_only=True)
+        lines = src.split('\n')
+        rec = ''
+        for i, l in enumerate(lines):
+            rec += l
+            if i < len(lines) - 1:
+                t = rng.choice(['\n', '\r\n', '\r'])
+                # a CR terminator directly followed by an empty LF-terminated line is inherently ambiguous (CR LF)
+                rec += t
+        # avoid the ambiguous CR + LF adjacency: "\r" terminator followed by "" line and "\n" terminator
+        rec = re.sub('\r\n', '\x00CRLF\x00', rec)
+        rec = rec.replace('\x00CRLF\x00', '\r\n')
+        res = list(src)
+        for _ in range(rng.randint(1, 4)):
+            res.insert(rng.randint(0, len(res)), rng.choice(['\x00', '\x01', '\x02']))
+        res = ''.join(res)
+        blank = res.replace('\x00', ' ').replace('\x01', ' ').replace('\x02', ' ')
+        o = dict(safeMode=m, reset=True, cb=True)
+        main = H([call(src, **o)])
+        main['variants'] = [H([call(rec, **o)]), H([call(res, **o)]), H([call(blank, **o)])]
+        main['meta'] = {'rec_ok': self._unambiguous(lines, rec)}
+        return main
+
+    @staticmethod
+    def _unambiguous(lines, rec):
+        return re.split(r'\r\n|\r|\n', rec) == lines
+
+    def streams(self, ctx):
+        rng = ctx.rng('T')
+        cs = []
+        for _ in range(sizes(ctx, 300, 15000)):
+            c = self._case(rng)
+            cs += [c] + c['variants']
+        return [corpus_stream(ctx), ('T', cs)]
+
+    def search_cases(self, ctx, boost):
+        rng = ctx.rng('S')
+        return [self._case(rng) for _ in range(sizes(ctx, 800, 30000) * (3 if boost else 1))]
+
+    def oracle(self, ctx, case, impl, variants=()):
+        if len(variants) < 3 or not all_ok(impl) or not all(all_ok(v) for v in variants):
+            return None
+        base = impl['calls'][0]['html']
+        for r in [impl] + list(variants):
+            h = r['calls'][0]['html']
+            if re.search('[\x00\x01\x02]', h):
+                return ('C16/reserved-in-output', 'output contains a reserved character: %r' % h[:120])
+        if case['meta']['rec_ok'] and variants[0]['calls'][0]['html'] != base:
+            return ('C16/terminators', 're-encoded terminators change the output: %r vs %r' % (variants[0]['calls'][0]['html'][:150], base[:150]))
+        if variants[1]['calls'][0]['html'] != variants[2]['calls'][0]['html']:
+            return ('C16/reserved-not-blank', 'reserved characters are not treated as blanks: %r vs %r'
+                    % (variants[1]['calls'][0]['html'][:150], variants[2]['calls'][0]['html'][:150]))
+        return None
+
+
+PROPS = {'C01': C01(), 'C03': C03(), 'C04': C04(), 'C05': C05(), 'C06': C06(), 'C13': C13(), 'C14': C14(), 'C15': C15(),
+         'C16': C16(), 'C20': C20()}
